@@ -314,13 +314,6 @@ def _b_sorted(ex, st, args, kw, node):
     j = z3.Int(fresh_name('j'))
     rng = z3.And(j >= 0, j < n)
     sarr = z3.simplify(arr)          # `select(store(elems, r, a), r)` -> a: the trigger E-matching actually meets
-    sn = z3.simplify(n)
-    if not (sarr.eq(arr) and sn.eq(n)):
-        # ground congruences spelled out (same function, equal arguments)
-        st.assume(z3.Implies(z3.And(sarr == arr, sn == n), z3.And(
-            uf('sorted_arr', SEQ, I, SEQ)(sarr, sn) == out_arr,
-            uf('sorted_perm', SEQ, I, z3.ArraySort(I, I))(sarr, sn) == perm,
-            uf('sorted_inv', SEQ, I, z3.ArraySort(I, I))(sarr, sn) == inv)))
     # consequences of the bijection axioms of the core LIBSPEC (nothing new is assumed): every source element sits
     # at position inv[j] of the result, every result element comes from position perm[j] of the source
     try:
